@@ -130,7 +130,7 @@ def walk_snapshot(snapshot, roots):
 
 
 def check_frame_fidelity(snapshot, frame_index, f_locals, max_str, max_coll, max_depth, require_all_locals=True,
-                         hostile_ids=()):
+                         hostile_ids=(), complete=False):
     """Compare the variables of one frame of a snapshot with the real objects. Returns '' or a failure signature."""
     frame = snapshot.frames[frame_index]
     names = [r.name for r in frame.variables]
@@ -184,6 +184,11 @@ def check_frame_fidelity(snapshot, frame_index, f_locals, max_str, max_coll, max
         cnames = [c.name for c in v.children]
         if len(set(map(str, cnames))) != len(cnames):
             return "child-duplicated"
+        if complete and not issubclass(type(o), type):
+            # the variable budget is not in play (caller's promise): every child the caps allow is listed
+            expected = allowed_children(o, depth, max_coll, max_depth)
+            if len(v.children) < len(expected):
+                return "children-missing(%s)" % type(o).__name__
         if (type(o) in LIST_LIKE or isinstance(o, Exception)) and len(v.children) > max(max_coll, 0):
             return "collection-cap-exceeded"
         for c in v.children:
